@@ -809,21 +809,7 @@ def classify(req, impl):
 
 
 def finding_class(req, impl, model, why):
-    sp = split_impl(impl)
-    if sp is None:
-        return None
-    try:
-        _, _, prog = split_req(req)
-    except Exception:       # noqa
-        return None
-    hev = [e for e in sp["S"][2] if e[0] in ("cs", "ce", "bs", "be", "fs", "fe", "ls", "le", "ps", "pe", "it")]
-    for k in sorted(prog):
-        if k < len(hev) and prog[k] != CONT:
-            if prog[k] > 0 and hev[k][0] == "ls" and len(hev) > k + 1:
-                return "positive code returned by handle_loop_start is ignored (parse continues without storing the loop)"
-            if prog[k] > 0 or prog[k] == END:
-                return None
-    return None
+    return None         # no open finding (F33, loop_start code ignored, was fixed by 43d0bb7)
 
 
 def render_min(doc, prog):
